@@ -92,6 +92,7 @@ struct Regular
 	int family = 0;	  // 0 exp(wx), 1 cosh(wx), 2 (x+s)^-k, 3 x^p
 	double a = 0, b = 1, p1 = 0, p2 = 0;
 	double ratio = 1;	// max|f''''|/min|f''''| on [a,b] for the doubles actually used
+	double f4max = 0;	// max|f''''| on [a,b]
 	ld exact	 = 0;
 	std::function<double(double)> f;
 	std::string name() const
@@ -117,6 +118,7 @@ inline Regular make_regular(vf::Rng& rng)
 			R.ratio = (double) expl(fabsl(wl) * ((ld) R.b - (ld) R.a));
 			R.exact = expl(wl * R.a) * expm1l(wl * ((ld) R.b - (ld) R.a)) / wl;
 			R.f		= [w](double x) { return std::exp(w * x); };
+			R.f4max = (double) (powl(wl, 4) * std::max(expl(wl * R.a), expl(wl * R.b)));
 			break;
 		}
 		case 1: {
@@ -139,6 +141,7 @@ inline Regular make_regular(vf::Rng& rng)
 			ld wl	= w;
 			R.exact = 2 * coshl(wl * ((ld) a + (ld) b) / 2) * sinhl(wl * ((ld) b - (ld) a) / 2) / wl;
 			R.f		= [w](double x) { return std::cosh(w * x); };
+			R.f4max = (double) (powl(wl, 4) * std::max(coshl(wl * a), coshl(wl * b)));
 			break;
 		}
 		case 2: {
@@ -156,6 +159,7 @@ inline Regular make_regular(vf::Rng& rng)
 			else
 				R.exact = powl(ua, 1 - (ld) k) * expm1l((1 - (ld) k) * lg) / (1 - (ld) k);
 			R.f = [s, k](double x) { return std::pow(x + s, -k); };
+			R.f4max = (double) ((ld) k * (k + 1) * (k + 2) * (k + 3) * powl(ua, -(ld) k - 4));
 			break;
 		}
 		default: {
@@ -176,10 +180,24 @@ inline Regular make_regular(vf::Rng& rng)
 			else
 				R.exact = powl((ld) a, (ld) p + 1) * expm1l(((ld) p + 1) * lg) / ((ld) p + 1);
 			R.f = [p](double x) { return std::pow(x, p); };
+			R.f4max = (double) (fabsl((ld) p * (p - 1) * (p - 2) * (p - 3)) * std::max(powl((ld) a, (ld) p - 4), powl((ld) b, (ld) p - 4)));
 			break;
 		}
 	}
 	return R;
+}
+
+// Depth that adaptive Simpson needs on an interval of width W for an integrand with |f''''| <= M: a panel of width h has |S2 - S| <= (17/16) h^5 M / 2880
+// (Simpson's error formula on the panel and on its halves), so every panel at level k meets |S2 - S| <= c eps / 2^k once 2^(4k) >= 17 W^5 M / (46080 c eps).
+// With c = 10 (15 in the library; a stricter factor is a legitimate choice) and one level of margin.  A request whose depth budget is below this cannot be
+// promised the 4 eps bound by any implementation; requests at or above it never run out of depth except through rounding noise in |S2 - S|, which leaves the
+// result accurate to rounding.  (The monitor used to recognise such requests by the text of the library's warning - that made it depend on the wording.)
+inline int simpson_depth_needed(double W, double M, double eps)
+{
+	double x = 17.0 * std::pow(std::fabs(W), 5) * M / (46080.0 * 10.0 * std::fabs(eps));
+	if(!(x > 1.0))
+		return 1;
+	return (int) std::ceil(std::log2(x) / 4.0) + 1;
 }
 
 // ---------------------------------------------------------------------------------------------
